@@ -706,13 +706,6 @@ class StateEngine(object):
                         {"StateMachineArn": state_machine_arn}
                     )
 
-                """
-                Tidy up self.branch_metadata for current execution_arn.
-                If ExecutionFailed we need to check for outstanding terminated
-                branch messages subsequently arriving.
-                """
-                if execution_arn in self.branch_metadata:
-                    self.check_pending_results(execution_arn)
             else:
                 opentracing.tracer.active_span.set_tag("status", "SUCCEEDED")
                 execution_detail["status"] = "SUCCEEDED"
@@ -750,6 +743,16 @@ class StateEngine(object):
         )
 
         self.broadcast_notification(execution_arn, execution_detail, context)
+
+        """
+        Tidy up self.branch_metadata for current execution_arn.
+        If ExecutionFailed we need to check for outstanding terminated
+        branch messages subsequently arriving. This acknowledges the events
+        held for the branches, so it is done after the execution record and
+        notification have been handed over.
+        """
+        if execution_failed and execution_arn in self.branch_metadata:
+            self.check_pending_results(execution_arn)
 
     def update_execution_history(
             self, state_machine, execution_arn, update_type, details
@@ -1546,13 +1549,6 @@ class StateEngine(object):
                             )
 
                             """
-                            Tidy up self.branch_metadata for current execution_arn
-                            before republishing the Task state event.
-                            """
-                            if execution_arn in self.branch_metadata:
-                                self.check_pending_results(execution_arn)
-
-                            """
                             Republish the Task state event with the new
                             RetryCount and RetryTimeout set. We also adjust
                             EnteredTime above. The ASL spec is unclear on
@@ -1568,6 +1564,14 @@ class StateEngine(object):
                             """
                             self.event_dispatcher.publish(event)
                             retry_matched = True
+
+                            """
+                            Tidy up self.branch_metadata for current execution_arn
+                            after republishing the state event, as this
+                            acknowledges the events held for the branches.
+                            """
+                            if execution_arn in self.branch_metadata:
+                                self.check_pending_results(execution_arn)
 
                         break
 
@@ -3335,17 +3339,20 @@ class StateEngine(object):
                 if error_type:
                     handle_error(state, error_type, error_message)
 
+            """
+            When this is the terminal state do this *before* acknowledging the
+            events held for the branches, so that they are only acknowledged
+            once the execution record and notification have been handed over.
+            It deletes the Parallel or Map branch results for the current
+            execution, but event_ids still references the held event ids.
+            """
+            if state.get("End"):
+                handle_terminal_state(state_type, event)
+
             # Acknowledge the events for each branch's terminal state
             #print("Result - event_ids:")
             #print(event_ids)
             self.acknowledge_event_list(event_ids)
-
-            """
-            Need to do this *after* acknowledging the events as it deletes the
-            Parallel or Map branch results for the current execution.
-            """
-            if state.get("End"):
-                handle_terminal_state(state_type, event)
 
 
         """
